@@ -9,7 +9,9 @@
      - Wait - and the goroutine Shutdown waits on - is blocked only while a spawned delivery has not finished, and the
        counter it waits on is exactly the number of such deliveries (C03_wait_blocks_only_on_running_deliveries);
      - the only instructions that can block at all are taking a Sequential handler's mutex, taking the store mutex,
-       Wait / Shutdown's waiter with deliveries in flight, and Shutdown's select (C03_only_these_block);
+       Wait / Shutdown's waiter with deliveries in flight, Shutdown's select, and the start of an Async+Sequential
+       delivery that is not yet at the head of its handler's queue (C03_only_these_block); the head of such a queue is
+       always an unfinished delivery (C07_turn_queue), so that wait ends when the head finishes;
    these combine into C03_progress: for programs whose handlers, filters and hooks do not call Wait or Shutdown, some
    goroutine can always step in every reachable state whose lock waits are acyclic (the documented exception is a
    cycle) and in which no goroutine has died of an unrecovered panic; the exception itself is exhibited
@@ -44,11 +46,13 @@ Theorem C03_store_lock_holder_runs : forall P cfg s, reachable P cfg s ->
 Proof. exact store_lock_holder_runs. Qed.
 Print Assumptions C03_store_lock_holder_runs.
 
-(* every instruction other than the five listed is enabled in every state *)
+(* every instruction other than the ones listed is enabled in every state; the last one is an Async+Sequential delivery
+   waiting for the delivery dispatched before it *)
 Theorem C03_only_these_block : forall P cfg s a i rest,
   step_instr P cfg s a i rest = None ->
   (exists h, i = ILock h) \/ (exists p, i = IPersistLock p) \/ i = IDo AWait \/ (exists sid, i = IWaiterDone sid) \/
-  (exists sid c, i = IShutdownSelect sid c) \/ i = ICrashed.
+  (exists sid c, i = IShutdownSelect sid c) \/ i = ICrashed \/
+  (exists p h, i = ITaskStart p h /\ h_seq (r_spec h) = true /\ at_head (queue s (r_id h)) a = false).
 Proof. exact only_these_block. Qed.
 Print Assumptions C03_only_these_block.
 
@@ -70,13 +74,16 @@ Print Assumptions C03_waiting_goroutines_are_outside_handlers.
 
 (* PROGRESS (no deadlock), over every schedule of every program whose handlers, filters and hooks do not call Wait or
    Shutdown: in a reachable state in which
-     - the goroutines waiting for handler mutexes do not wait in a cycle (rank decreases along "waits for the holder");
-       the documented exception is exactly such a cycle, see C03_self_delivery_exception, and
+     - the goroutines waiting for handler mutexes, and the Async+Sequential deliveries waiting for the delivery queued
+       before them, do not wait in a cycle (rank decreases along "waits for the holder" / "waits for the head of its
+       queue"); the documented exception is exactly such a cycle, see C03_self_delivery_exception, and
      - no goroutine has died of an unrecovered panic (which in Go ends the whole process),
    some goroutine can take a step whenever some goroutine is unfinished. *)
 Theorem C03_progress : forall P cfg s, Pwf P -> reachable P cfg s ->
   forall rank : actor -> nat,
   (forall a h rest b, assoc_get (code s) a = Some (ILock h :: rest) -> assoc_get (seqlocks s) (r_id h) = Some b -> rank b < rank a) ->
+  (forall a p h rest b more, assoc_get (code s) a = Some (ITaskStart p h :: rest) ->
+     h_seq (r_spec h) = true -> queue s (r_id h) = b :: more -> b <> a -> rank b < rank a) ->
   (forall a rest, assoc_get (code s) a <> Some (ICrashed :: rest)) ->
   (exists a i rest, assoc_get (code s) a = Some (i :: rest)) ->
   exists b s' ls, mstep P cfg s b = Some (s', ls).
